@@ -283,6 +283,338 @@ theorem NExt.listen (t : LtSpec) (s : St) : NExt s (listen t s).2 := by
         | none => exact h2.trans h3
         | some x => exact (h2.trans h3).trans (NExt.target _)
 
+/-! ## `nfc.tag.activate`: only driver/collaborator calls; which exceptions leave it -/
+
+/-- the frontend holds a remote target (the one `sense()` just returned) -/
+def HasT (s : St) : Prop := ∃ id, s.target = .remote id
+
+/-- exceptions of the local device and of a single-target `sense()`: all end connect() with False -/
+def DevErr (e : Exc) : Prop := e = .io 5 ∨ e = .keyboardInterrupt ∨ e = .unsupportedTarget
+
+/-- the piece only appends driver/collaborator calls and sleeps; what it raises is a device error
+or (when `c`) a CommunicationError -/
+def ActPost {α : Type} (c : Bool) (s : St) (r : R α) : Prop :=
+  NExt s r.2 ∧ ∀ e, r.1 = .error e → DevErr e ∨ (c = true ∧ isCommErr e = true)
+
+theorem xchgAnswer_ne_none (a : Ans) (s : St) : (xchgAnswer a s).1 ≠ .ok none := by
+  cases a <;> simp [xchgAnswer]
+
+theorem exchange_act (s : St) (h : HasT s) :
+    ActPost true s (exchange s) ∧ HasT (exchange s).2 ∧ (exchange s).1 ≠ .ok none := by
+  obtain ⟨id, hid⟩ := h
+  refine ⟨⟨NExt.exchange s, ?_⟩, ⟨id, by rw [(exchange_spec s).1, hid]⟩, ?_⟩
+  · intro e he
+    rcases exchange_err s e he with h1 | h1 | h1
+    · exact Or.inl (Or.inl h1)
+    · exact Or.inl (Or.inr (Or.inl h1))
+    · exact Or.inr ⟨rfl, h1⟩
+  · unfold exchange
+    simp only [hid]
+    exact xchgAnswer_ne_none _ _
+
+theorem senseOne_a7_err (s : St) (e : Exc) (h : (senseOne (.a 7) s).1 = .error e) :
+    DevErr e ∨ isCommErr e = true := by
+  obtain ⟨a, ha⟩ := ask_spec s .senseA
+  have h7 : ¬ (7 ≠ 0 ∧ 7 ≠ 4 ∧ 7 ≠ 7 ∧ 7 ≠ 10) := by omega
+  simp only [senseOne, h7, if_false, drvSense, ha] at h
+  cases a <;> simp at h <;> try (subst h; simp [DevErr, isCommErr])
+  rename_i f
+  split at h
+  · cases h
+  · rename_i e' hc
+    cases h
+    have := checkTta_err _ _ hc
+    subst this
+    simp [isCommErr]
+
+theorem sense_a7_err (s : St) (e : Exc) (h : (sense [.a 7] 1 s).1 = .error e) : DevErr e := by
+  have hdev : ∀ e, (e = .io 5 ∨ e = .keyboardInterrupt) → DevErr e := by
+    intro e h; rcases h with h | h
+    · exact Or.inl h
+    · exact Or.inr (Or.inl h)
+  unfold sense at h
+  simp only [List.any_cons, List.any_nil, Bool.or_false] at h
+  have hnt : (TgtSpec.a 7 == TgtSpec.notTarget) = false := by decide
+  simp only [hnt, Bool.false_eq_true, if_false] at h
+  have hm := simpleCall_err .mute { s with target := .none }
+  rcases hsc : simpleCall .mute { s with target := .none } with ⟨r2, s2⟩
+  rw [hsc] at h hm
+  cases r2 with
+  | error e2 => simp only at h; cases h; exact hdev _ (hm e rfl)
+  | ok u =>
+    simp only at h
+    have h1 : (max 1 (1 : Int)).toNat = 1 := by decide
+    rw [h1] at h
+    unfold senseIters at h
+    unfold senseTargets at h
+    have ho := senseOne_a7_err s2
+    rcases hso : senseOne (.a 7) s2 with ⟨r3, s3⟩
+    rw [hso] at h ho
+    cases r3 with
+    | error e3 =>
+      simp only at h
+      have hcase := ho e3 rfl
+      by_cases hte : isTargetErr e3 = true
+      · simp only [hte, if_true, List.length_cons, List.length_nil] at h
+        simp at h
+        subst h
+        rcases hcase with hd | hc
+        · exact hd
+        · cases e3 <;> simp [isTargetErr, isCommErr] at hte hc
+      · simp only [hte] at h
+        by_cases hce : isCommErr e3 = true
+        · simp only [hce, if_true, senseTargets] at h
+          simp only [List.isEmpty_cons, Bool.false_eq_true, if_false] at h
+          have hm2 := simpleCall_err .mute s3
+          rcases hsc2 : simpleCall .mute s3 with ⟨r4, s4⟩
+          rw [hsc2] at h hm2
+          cases r4 with
+          | error e4 => simp only at h; cases h; exact hdev _ (hm2 e rfl)
+          | ok u2 => simp [senseIters] at h
+        · simp only [hce] at h
+          simp at h
+          subst h
+          rcases hcase with hd | hc
+          · exact hd
+          · exact absurd hc hce
+    | ok o =>
+      cases o with
+      | some x => simp at h
+      | none =>
+        simp only [senseTargets] at h
+        simp only [List.isEmpty_cons, Bool.false_eq_true, if_false] at h
+        have hm2 := simpleCall_err .mute s3
+        rcases hsc2 : simpleCall .mute s3 with ⟨r4, s4⟩
+        rw [hsc2] at h hm2
+        cases r4 with
+        | error e4 => simp only at h; cases h; exact hdev _ (hm2 e rfl)
+        | ok u2 => simp [senseIters] at h
+
+theorem sense_some_target (tl : List TgtSpec) (iters : Int) (s s1 : St) (x : Nat × Found)
+    (h : sense tl iters s = (.ok (some x), s1)) : s1.target = .remote x.1 := by
+  by_cases hnt : tl.any (· == .notTarget) = true
+  · simp [sense, hnt] at h
+  · have hnt' : tl.any (· == .notTarget) = false := by
+      cases hb : tl.any (· == .notTarget) with
+      | true => exact absurd hb hnt
+      | false => rfl
+    obtain ⟨⟨seg, _, _, _, _, h5, _⟩, _⟩ := sense_spec tl iters s hnt'
+    rw [h] at h5
+    obtain ⟨_, _, _, _, _, _, _, htg⟩ := h5 x rfl
+    exact htg
+
+theorem reSense_act (s : St) :
+    ActPost false s (reSense s) ∧ ((reSense s).1 = .ok true → HasT (reSense s).2) := by
+  have hn := NExt.sense [.a 7] 1 s
+  have he := sense_a7_err s
+  have hsp := sense_spec [.a 7] 1 s (by decide)
+  unfold reSense
+  rcases hr : sense [.a 7] 1 s with ⟨r1, s1⟩
+  rw [hr] at hn he hsp
+  cases r1 with
+  | error e => exact ⟨⟨hn, by intro e' h'; cases h'; exact Or.inl (he e rfl)⟩, by simp⟩
+  | ok o =>
+    cases o with
+    | none => exact ⟨⟨hn, by simp⟩, by simp⟩
+    | some x =>
+      refine ⟨⟨hn, by simp⟩, fun _ => ?_⟩
+      obtain ⟨⟨seg, _, _, _, _, h5, _⟩, _⟩ := hsp
+      obtain ⟨_, _, _, _, _, _, _, htg⟩ := h5 x rfl
+      exact ⟨x.1, htg⟩
+
+theorem ActPost.weaken {α : Type} {s : St} {r : R α} (h : ActPost false s r) : ActPost true s r :=
+  ⟨h.1, fun e he => by rcases h.2 e he with h1 | ⟨h1, _⟩; exact Or.inl h1; cases h1⟩
+
+theorem stillThere_act (s : St) (k : St → R Bool) (c : Bool)
+    (hk : ∀ s1, HasT s1 → ActPost c s1 (k s1)) : ActPost c s (stillThere s k) := by
+  obtain ⟨⟨hn, he⟩, ht⟩ := reSense_act s
+  unfold stillThere
+  rcases hr : reSense s with ⟨r1, s1⟩
+  rw [hr] at hn he ht
+  cases r1 with
+  | error e =>
+    refine ⟨hn, ?_⟩
+    intro e' h'; cases h'
+    rcases he e rfl with h1 | ⟨h1, _⟩
+    · exact Or.inl h1
+    · cases h1
+  | ok b =>
+    cases b with
+    | false => exact ⟨hn, by simp⟩
+    | true =>
+      obtain ⟨hn2, he2⟩ := hk s1 (ht rfl)
+      exact ⟨hn.trans hn2, he2⟩
+
+theorem ActPost.done {α : Type} (c : Bool) (s : St) (v : α) : ActPost c s ((.ok v, s) : R α) :=
+  ⟨NExt.refl s, by simp⟩
+
+theorem nxpVersion_act (s : St) (h : HasT s) : ActPost false s (nxpVersion s) := by
+  obtain ⟨⟨hn, he⟩, ht, hnn⟩ := exchange_act s h
+  unfold nxpVersion
+  rcases hr : exchange s with ⟨r1, s1⟩
+  rw [hr] at hn he ht hnn
+  have still : ActPost false s (stillThere s1 (fun s2 => (.ok true, s2))) := by
+    have := stillThere_act s1 (fun s2 => ((.ok true, s2) : R Bool)) false (fun s2 _ => ActPost.done false s2 true)
+    exact ⟨hn.trans this.1, this.2⟩
+  cases r1 with
+  | ok o =>
+    cases o with
+    | none => exact absurd rfl hnn
+    | some d =>
+      simp only
+      split
+      · exact ⟨hn, by simp⟩
+      · split
+        · exact still
+        · exact ⟨hn, by simp⟩
+  | error e =>
+    simp only
+    split
+    · exact still
+    · split
+      · exact ⟨hn, by simp⟩
+      · rename_i h1 h2
+        refine ⟨hn, ?_⟩
+        intro e' h'; cases h'
+        rcases he e rfl with h3 | ⟨_, h3⟩
+        · exact Or.inl h3
+        · exact absurd h3 h2
+
+theorem nxpActivate_act (s : St) (h : HasT s) : ActPost false s (nxpActivate s) := by
+  obtain ⟨⟨hn, he⟩, ht, hnn⟩ := exchange_act s h
+  unfold nxpActivate
+  rcases hr : exchange s with ⟨r1, s1⟩
+  rw [hr] at hn he ht hnn
+  cases r1 with
+  | ok o =>
+    cases o with
+    | none => exact absurd rfl hnn
+    | some d =>
+      simp only
+      have := stillThere_act s1 (fun s2 => if d.head? = some 0xAF then ((.ok true, s2) : R Bool) else nxpVersion s2) false
+        (by intro s2 h2; split
+            · exact ActPost.done false s2 true
+            · exact nxpVersion_act s2 h2)
+      exact ⟨hn.trans this.1, this.2⟩
+  | error e =>
+    simp only
+    split
+    · have := stillThere_act s1 nxpVersion false (fun s2 h2 => nxpVersion_act s2 h2)
+      exact ⟨hn.trans this.1, this.2⟩
+    · split
+      · exact ⟨hn, by simp⟩
+      · rename_i h1 h2
+        refine ⟨hn, ?_⟩
+        intro e' h'; cases h'
+        rcases he e rfl with h3 | ⟨_, h3⟩
+        · exact Or.inl h3
+        · exact absurd h3 h2
+
+theorem tt2Activate_act (f : Found) (s : St) (h : HasT s) : ActPost false s (tt2Activate f s) := by
+  unfold tt2Activate
+  split
+  · obtain ⟨hn, he⟩ := nxpActivate_act s h
+    rcases hr : nxpActivate s with ⟨r1, s1⟩
+    rw [hr] at hn he
+    cases r1 with
+    | error e => exact ⟨hn, by intro e' h'; cases h'; exact he e rfl⟩
+    | ok b =>
+      cases b with
+      | true => exact ⟨hn, by simp⟩
+      | false =>
+        simp only
+        obtain ⟨⟨hn2, he2⟩, _⟩ := reSense_act s1
+        rcases hr2 : reSense s1 with ⟨r2, s2⟩
+        rw [hr2] at hn2 he2
+        cases r2 with
+        | error e => exact ⟨hn.trans hn2, by intro e' h'; cases h'; exact he2 e rfl⟩
+        | ok b2 => cases b2 <;> exact ⟨hn.trans hn2, by simp⟩
+  · exact ActPost.done false s _
+
+theorem tt4Activate_act (t : TagType) (s : St) (h : HasT s) : ActPost true s (tt4Activate t s) := by
+  obtain ⟨⟨hn, he⟩, ht, hnn⟩ := exchange_act s h
+  unfold tt4Activate
+  rcases hr : exchange s with ⟨r1, s1⟩
+  rw [hr] at hn he ht hnn
+  cases r1 with
+  | ok o =>
+    cases o with
+    | none => exact absurd rfl hnn
+    | some d => exact ⟨hn, by simp⟩
+  | error e => exact ⟨hn, by intro e' h'; cases h'; exact he e rfl⟩
+
+/-- targets `nfc.tag.activate` cannot handle (open findings): found by `sense_dep` (brty 106A,
+no `sens_res`), or a Type A answer whose SENS_RES byte 1 says "Type 1 Tag" although byte 0 does not
+(no RID response was requested) -/
+def TypeErrTarget (f : Found) : Prop :=
+  (f.tech = 1 ∧ f.sens.getD 1 0 % 16 = 12 ∧ f.rid.isEmpty = true) ∨ (f.tech ≠ 1 ∧ f.tech ≠ 2 ∧ f.tech ≠ 3)
+
+instance (f : Found) : Decidable (TypeErrTarget f) := by unfold TypeErrTarget; infer_instance
+
+theorem activateBody_act (f : Found) (s : St) (h : HasT s) :
+    NExt s (activateBody f s).2 ∧
+    ∀ e, (activateBody f s).1 = .error e →
+      DevErr e ∨ isCommErr e = true ∨ (e = .type_ ∧ TypeErrTarget f ∧ (activateBody f s).2 = s) := by
+  have lift : ∀ {c : Bool} {r : R (Option TagType)}, ActPost c s r →
+      NExt s r.2 ∧ ∀ e, r.1 = .error e → DevErr e ∨ isCommErr e = true ∨ (e = .type_ ∧ TypeErrTarget f ∧ r.2 = s) := by
+    intro c r hp
+    refine ⟨hp.1, fun e he => ?_⟩
+    rcases hp.2 e he with h1 | ⟨_, h1⟩
+    · exact Or.inl h1
+    · exact Or.inr (Or.inl h1)
+  unfold activateBody
+  split
+  · rename_i ht1
+    split
+    · rename_i hs12
+      split
+      · rename_i hrid
+        exact ⟨NExt.refl s, by intro e he; cases he; exact Or.inr (Or.inr ⟨rfl, Or.inl ⟨ht1, hs12, hrid⟩, rfl⟩)⟩
+      · exact lift (ActPost.done false s _)
+    · split
+      · exact lift (tt2Activate_act f s h)
+      · split
+        · exact lift (tt4Activate_act .tt4a s h)
+        · exact lift (ActPost.done false s _)
+  · split
+    · exact lift (tt4Activate_act .tt4b s h)
+    · split
+      · split <;> exact lift (ActPost.done false s _)
+      · rename_i h1 h2 h3
+        exact ⟨NExt.refl s, by intro e he; cases he; exact Or.inr (Or.inr ⟨rfl, Or.inr ⟨h1, h2, h3⟩, rfl⟩)⟩
+
+/-- `nfc.tag.activate` appends only the `act` event and driver calls; it raises only device errors
+(IOError, KeyboardInterrupt, the UnsupportedTargetError of a nested single-target `sense()`): every
+CommunicationError of every activation command is absorbed - except the TypeError for a target it
+cannot handle, raised before any command was sent. -/
+theorem tagActivate_act (f : Found) (s : St) (h : HasT s) :
+    NExt s (tagActivate f s).2 ∧
+    ∀ e, (tagActivate f s).1 = .error e →
+      DevErr e ∨ (e = .type_ ∧ TypeErrTarget f ∧
+        (tagActivate f s).2.log = s.log ++ [.call .activate (.found f)]) := by
+  have hem : NExt s (s.emit (.call .activate (.found f))) := ⟨[_], rfl, by simp [Ev.neutral]⟩
+  have hT : HasT (s.emit (.call .activate (.found f))) := h
+  obtain ⟨hn, he⟩ := activateBody_act f (s.emit (.call .activate (.found f))) hT
+  unfold tagActivate
+  rcases hr : activateBody f (s.emit (.call .activate (.found f))) with ⟨r1, s1⟩
+  rw [hr] at hn he
+  cases r1 with
+  | ok v => exact ⟨hem.trans hn, by simp⟩
+  | error e =>
+    simp only
+    by_cases hc : isCommErr e = true
+    · simp only [hc, if_true]
+      exact ⟨hem.trans hn, by simp⟩
+    · simp only [hc]
+      refine ⟨hem.trans hn, ?_⟩
+      intro e' h'
+      cases h'
+      rcases he e rfl with h1 | h1 | ⟨h1, h2, h3⟩
+      · exact Or.inl h1
+      · exact absurd h1 hc
+      · simp only at h3
+        exact Or.inr ⟨h1, h2, by rw [h3]; rfl⟩
+
 /-! ## monitor transitions of the single events -/
 
 theorem mon_discover {s : St} {q : Q} (h : mon s.log = some q) (hq : q.idleLike = true) (r : Role) (hr : r ≠ .llcp)
@@ -425,13 +757,18 @@ theorem rdwrStep_spec (o : RdwrOpts) (ts : List Bool) (s : St) : StepSpec ts s (
       | true =>
         simp only [hdv] at h2 ⊢
         simp only [Bool.not_true, Bool.false_eq_true, if_false]
-        have ha := NExt.ask (s1.emit (.cb .rdwr .discover dv.code b1)) .activate
-        rcases hask : (s1.emit (.cb .rdwr .discover dv.code b1)).ask .activate with ⟨a, s3⟩
-        rw [hask] at ha
+        have hT : HasT (s1.emit (.cb .rdwr .discover dv.code b1)) :=
+          ⟨id, sense_some_target _ _ _ _ _ hr⟩
+        have ha := (tagActivate_act f _ hT).1
+        rcases hact : tagActivate f (s1.emit (.cb .rdwr .discover dv.code b1)) with ⟨a, s3⟩
+        rw [hact] at ha
         have h3 : mon s3.log = some (.disc .rdwr) := by rw [ha.mon]; exact h2
-        simp only
         cases a with
-        | found f2 =>
+        | error e => exact ⟨_, h3, trivial, Nat.le_refl _⟩
+        | ok ot =>
+        cases ot with
+        | none => exact ⟨_, h3, rfl, Nat.le_refl _⟩
+        | some tt =>
           simp only
           obtain ⟨b2, hc⟩ := Cb.run_eq o.connect .true_ .rdwr .connect s3
           rw [hc]
@@ -483,9 +820,6 @@ theorem rdwrStep_spec (o : RdwrOpts) (ts : List Bool) (s : St) : StepSpec ts s (
                   have h8 := mon_release h7 rv.code b3
                   rw [codeTruthy_code] at h8
                   exact ⟨_, h8, rfl, hp.2⟩
-        | ioError => exact ⟨_, h3, trivial, Nat.le_refl _⟩
-        | kbd => exact ⟨_, h3, trivial, Nat.le_refl _⟩
-        | _ => exact ⟨_, h3, rfl, Nat.le_refl _⟩
 
 theorem llcpRole_spec (o : LlcpOpts) (ini : Bool) (ts : List Bool) (s : St) :
     ∀ q, mon s.log = some q → q.idleLike = true →
@@ -613,14 +947,18 @@ theorem cardStep_spec (o : CardOpts) (ts : List Bool) (s : St) : StepSpec ts s (
       | true =>
         simp only [hdv] at h2 ⊢
         simp only [Bool.not_true, Bool.false_eq_true, if_false]
-        have ha := NExt.ask (s1.emit (.cb .card .discover dv.code b1)) .emulate
-        rcases hask : (s1.emit (.cb .card .discover dv.code b1)).ask .emulate with ⟨a, s3⟩
-        rw [hask] at ha
+        obtain ⟨id, f⟩ := x
+        have ha : NExt (s1.emit (.cb .card .discover dv.code b1))
+            ((s1.emit (.cb .card .discover dv.code b1)).emit (.call .emulate (.found f))) :=
+          ⟨[_], rfl, by simp [Ev.neutral]⟩
+        generalize hs3 : (s1.emit (.cb .card .discover dv.code b1)).emit (.call .emulate (.found f)) = s3 at *
         have h3 : mon s3.log = some (.disc .card) := by rw [ha.mon]; exact h2
-        simp only
-        cases a with
-        | found f2 =>
-          simp only
+        cases hem : emulates o.target f with
+        | false =>
+          simp only [Bool.not_false, if_true]
+          exact ⟨_, h3, rfl, Nat.le_refl _⟩
+        | true =>
+          simp only [Bool.not_true, Bool.false_eq_true, if_false]
           obtain ⟨b2, hc⟩ := Cb.run_eq o.connect .true_ .card .connect s3
           rw [hc]
           simp only
@@ -649,9 +987,6 @@ theorem cardStep_spec (o : CardOpts) (ts : List Bool) (s : St) : StepSpec ts s (
               have h8 := mon_release hp.1 rv.code b3
               rw [codeTruthy_code] at h8
               exact ⟨_, h8, rfl, hp.2⟩
-        | ioError => exact ⟨_, h3, trivial, Nat.le_refl _⟩
-        | kbd => exact ⟨_, h3, trivial, Nat.le_refl _⟩
-        | _ => exact ⟨_, h3, rfl, Nat.le_refl _⟩
 
 /-- what connect()'s main loop leaves behind -/
 def MainPost (r : Py RetVal) (q' : Q) : Prop :=
